@@ -90,8 +90,9 @@ def coq_make(targets, timeout=3000):
         ok = {}
         for t in targets:
             vo = os.path.join(COQ, t)
-            src = vo[:-1]
-            ok[t] = os.path.exists(vo) and os.path.getmtime(vo) >= os.path.getmtime(src)
+            # up to date with respect to ALL its dependencies (a stale .vo whose dependency failed to build must not count)
+            rcq, _ = sh(["make", "-q", t], cwd=COQ, timeout=600)
+            ok[t] = os.path.exists(vo) and rcq == 0
         return ok, log
 
 
@@ -132,12 +133,17 @@ def props_file(pid):
     return "Props/Properties_%s.vo" % pid
 
 
-def theorem_names(pid):
-    p = os.path.join(COQ, "Props", "Properties_%s.v" % pid)
-    if not os.path.exists(p):
-        return []
-    txt = re.sub(r"\(\*.*?\*\)", "", open(p).read(), flags=re.S)
-    return re.findall(r"^\s*(?:Theorem|Corollary)\s+([A-Za-z0-9_']+)", txt, flags=re.M)
+def theorem_names(pid, files=None):
+    """theorem names of Props/Properties_<pid>.v, or of the given .vo/.v targets under coq/"""
+    paths = [os.path.join(COQ, "Props", "Properties_%s.v" % pid)] if files is None else \
+            [os.path.join(COQ, f[:-1] if f.endswith(".vo") else f) for f in files]
+    names = []
+    for p in paths:
+        if not os.path.exists(p):
+            continue
+        txt = re.sub(r"\(\*.*?\*\)", "", open(p).read(), flags=re.S)
+        names += re.findall(r"^\s*(?:Theorem|Corollary)\s+([A-Za-z0-9_']+)", txt, flags=re.M)
+    return names
 
 
 def coq_props(pid, extra_targets=()):
@@ -147,19 +153,26 @@ def coq_props(pid, extra_targets=()):
     tgt = props_file(pid)
     targets = [tgt] + list(extra_targets)
     # force re-check of the property file itself so that Print Assumptions is re-printed
-    vo = os.path.join(COQ, tgt)
-    if os.path.exists(vo):
-        os.remove(vo)
+    # force re-check of every property file among the targets so that nothing stale counts and Print Assumptions is re-printed
+    props = [t for t in targets if t.startswith("Props/")]
+    for t in props:
+        vo = os.path.join(COQ, t)
+        if os.path.exists(vo):
+            os.remove(vo)
     ok, log = coq_make(targets)
-    names = theorem_names(pid)
+    names = theorem_names(pid, props)
     lint = coq_lint()
+    pa = print_assumptions(log)
+    if all(ok.get(t) for t in props) and len(pa) < len(names):
+        lint = lint + ["%d theorem(s) in %s but only %d Print Assumptions output(s): every theorem must be followed by Print Assumptions" %
+                       (len(names), " ".join(props), len(pa))]
     res = {
         "ok": all(ok.values()) and not lint,
         "targets": ok,
         "names": names,
         "obligations": len(names),
-        "discharged": len(names) if ok.get(tgt) else 0,
-        "assumptions": print_assumptions(log),
+        "discharged": len(names) if all(ok.get(t) for t in props) else len(theorem_names(pid, [t for t in props if ok.get(t)])),
+        "assumptions": pa,
         "lint": lint,
         "log": log,
         "wall_s": time.time() - t0,
@@ -241,6 +254,8 @@ CONFIGS = {
     "directxor": ["-DBACKEND_DIRECT_XOR=ON"],
     "generic": ["-DBACKEND_GENERIC=ON"],
     "checkar": ["-DCHECK_ACQUIRE_RELEASE=ON"],
+    # ascon_clean()'s last-resort branch (volatile byte loop): pretend the C library has neither explicit_bzero nor memset_s
+    "volclean": ["-DHAVE_EXPLICIT_BZERO=", "-DHAVE_MEMSET_S="],
 }
 SAN_FLAGS = "-O1 -g -fsanitize=address,undefined -fno-sanitize-recover=all -fno-omit-frame-pointer"
 
